@@ -181,7 +181,7 @@ def outcome_class(e, stream):
 
 
 class CallResult:
-    __slots__ = ("ok", "value", "err", "exc", "entropy", "args_changed", "elapsed", "index", "state")
+    __slots__ = ("ok", "value", "err", "exc", "entropy", "args_changed", "elapsed", "index", "state", "requests")
 
 
 def call_impl(fn, args, stream="plain", replay_entropy=None, kwargs=None):
@@ -208,6 +208,7 @@ def call_impl(fn, args, stream="plain", replay_entropy=None, kwargs=None):
         ENT.replay = None
     r.elapsed = time.perf_counter() - t0
     r.entropy = b"".join(ENT.log)
+    r.requests = [len(x) for x in ENT.log]
     ENT.log = []
     after = [snapshot(a) for a in args]
     r.args_changed = before != after
@@ -351,9 +352,9 @@ def scan_sources():
     return hits
 
 
-def audit(pid, theorems):
+def audit(pid, theorems, imp="PsecModel"):
     """Run `#print axioms` for every theorem of the property. Returns dict with obligations/discharged/details."""
-    lines = ["import PsecModel"] + [f"#print axioms {t}" for t in theorems]
+    lines = [f"import {imp}"] + [f"#print axioms {t}" for t in theorems]
     src = "\n".join(lines) + "\n"
     path = os.path.join(LEAN_DIR, ".lake", f"audit_{pid}.lean")
     os.makedirs(os.path.dirname(path), exist_ok=True)
@@ -375,7 +376,7 @@ def audit(pid, theorems):
             continue
         res[t] = {"axioms": None, "ok": False, "error": "theorem missing or audit failed"}
     return {"theorems": res, "raw": out[-2000:] if p.returncode != 0 else "",
-            "checker_cmd": f"cd lean && lake build PsecModel && lake env lean .lake/audit_{pid}.lean  # #print axioms of {len(theorems)} theorems"}
+            "checker_cmd": f"cd lean && lake build {imp} && lake env lean .lake/audit_{pid}.lean  # #print axioms of {len(theorems)} theorems"}
 
 
 # --------------------------------------------------------------------------
